@@ -157,7 +157,12 @@ func (x *Exec) mapGet(st *State, m *Term, mt *types.Map, k Value) (Value, *Term)
 	ks := x.mapKeySort(mt)
 	for i, c := range cs {
 		arr := x.heapArr(st, mapPrefix(mt)+".val"+c.suffix, SInt, ArraySort(ks, c.sort))
-		ts = append(ts, Ite(in, Select(Select(arr, m), kt), zs[i]))
+		cell := Select(Select(arr, m), kt)
+		if c.sort.K == KInt && (c.suffix == "" || strings.HasSuffix(c.suffix, ".base") || strings.HasSuffix(c.suffix, ".ref")) {
+			// a reference stored in a map denotes memory that existed when the map's array came into being
+			x.boundLoadedRef(st, cell)
+		}
+		ts = append(ts, Ite(in, cell, zs[i]))
 	}
 	v, _ := x.unflatten(mt.Elem(), ts)
 	return v, in
@@ -198,6 +203,8 @@ func (x *Exec) lookup(fr *Frame, st *State, in *ssa.Lookup) Value {
 	if mt, ok := in.X.Type().Underlying().(*types.Map); ok {
 		v, present := x.mapGet(st, xv.(*Term), mt, x.operand(fr, st, in.Index))
 		v = x.nameValue(st, mt.Elem(), v, in.Name())
+		// a value read from a map is a well-formed value of its type (slice headers inside it)
+		x.assumeTypeInv(st, mt.Elem(), v)
 		if in.CommaOk {
 			return &TupleV{[]Value{v, present}}
 		}
@@ -293,8 +300,12 @@ func (x *Exec) selectOp(fr *Frame, st *State, in *ssa.Select) Value {
 	for i, s := range in.States {
 		if s.Dir == types.RecvOnly {
 			cst := st.Clone()
-			cst.Assume(Eq(idx, BVConstU(uint64(i), 64)))
+			chosen := Eq(idx, BVConstU(uint64(i), 64))
+			cst.Assume(chosen)
+			x.inSelectEvent = true
 			x.checkEvent(fr, cst, "recv", s.Chan, nil, nil)
+			x.inSelectEvent = false
+			x.tokenEvent(st, cst, "recv", x.describeFuncSource(s.Chan), chosen)
 		}
 	}
 	// send cases are events when chosen
@@ -303,7 +314,10 @@ func (x *Exec) selectOp(fr *Frame, st *State, in *ssa.Select) Value {
 			cst := st.Clone()
 			chosen := Eq(idx, BVConstU(uint64(i), 64))
 			cst.Assume(chosen)
+			x.inSelectEvent = true
 			x.checkEvent(fr, cst, "send", s.Chan, x.operand(fr, st, s.Send), s.Send.Type())
+			x.inSelectEvent = false
+			x.tokenEvent(st, cst, "send", x.describeFuncSource(s.Chan), chosen)
 			// on the continuing path the send has happened exactly when this case was chosen
 			key := "$sent:" + x.describeFuncSource(s.Chan)
 			if prev, ok := st.ghost[key].(*Term); ok {
